@@ -2,7 +2,10 @@ package smtp
 
 import (
 	"errors"
+	"fmt"
 	"io"
+	"net"
+	"time"
 )
 
 // verif_C02_resume: a DATA transfer whose body contains a bait command line
@@ -55,7 +58,7 @@ func verif_C02_resume() {
 	if readMode == 3 {
 		kstop = nondetInt(verifBound(msgLen-3, 1), msgLen)
 	}
-	retMode := verifChoice(3)  // 0 nil, 1 SMTPError, 2 plain error
+	retMode := verifChoice(3) // 0 nil, 1 SMTPError, 2 plain error
 	consume := func(r io.Reader) error {
 		var rerr error
 		switch readMode {
@@ -122,4 +125,119 @@ func verif_C02_resume() {
 		}
 	}
 	verifAssert(be.count(dataKind) == 1, "C02.one-data-call")
+}
+
+// verif_C02_timeout: the read deadline expires at an ARBITRARY offset inside a
+// DATA message (the peer is slow, not gone): the read fails once, the rest of
+// the message - which contains a command line - arrives afterwards. No octet of
+// the message may be executed as a command, the backend never reads EOF and no
+// positive reply is given for the message.
+func verif_C02_timeout() {
+	mode := verifChoice(3) // 0 SMTP, 1 LMTP plain session, 2 LMTP per-recipient session
+	hello := "EHLO c\r\n"
+	if mode != 0 {
+		hello = "LHLO c\r\n"
+	}
+	head := hello + "MAIL FROM:<s@v>\r\nRCPT TO:<r@v>\r\nDATA\r\n"
+	msg := "ab\r\nMAIL FROM:<bait@v>\r\ncd\r\n.\r\n"
+	tail := "MAIL FROM:<marker@v>\r\n"
+	at := nondetInt(0, len(msg)-1) // the message octet in front of which the deadline expires
+	readAll := nondetBool()
+	var rerr error
+	be := &vbackend{lmtpSession: mode == 2}
+	consume := func(r io.Reader) error {
+		if readAll {
+			_, rerr = verifReadAll(r, 3)
+		} else {
+			_, rerr = r.Read(make([]byte, 2))
+		}
+		if rerr != nil && rerr != io.EOF {
+			return rerr
+		}
+		return nil
+	}
+	be.dataFn = func(_ *vsession, r io.Reader) error { return consume(r) }
+	be.lmtpFn = func(_ *vsession, r io.Reader, st StatusCollector) error { return consume(r) }
+	s, _ := verifServer(be)
+	s.LMTP = mode != 0
+	s.ReadTimeout = time.Second
+	vc := &vconn{in: []byte(head + msg + tail), final: io.EOF}
+	vc.faults = map[int]error{len(head) + at: verifTimeoutErr{}}
+	c := newConn(vc, s)
+	s.handleConn(c)
+	verifSettle()
+	reps, wf := verifParseReplies(vc.out)
+	verifObserve("c02to", mode, at, readAll, wf, len(reps), len(be.trace), rerr == io.EOF)
+	verifAssert(wf, "C02.timeout-replies-wellformed")
+	verifAssert(be.find("Mail", "bait@v") < 0, "C02.timeout-no-message-octet-executed")
+	if readAll {
+		verifAssert(rerr != io.EOF, "C02.timeout-backend-never-reads-eof")
+	}
+	if wf && len(reps) > 5 {
+		verifAssert(reps[5].code/100 != 2, "C02.timeout-no-positive-reply")
+	}
+	verifReach("C02.timeout-end")
+}
+
+// verif_C02_sentinel: the backend stops reading wherever it likes and fails
+// with one of the error VALUES the library itself uses or inspects (plain or
+// wrapped io.ErrUnexpectedEOF, io.EOF, ErrDataReset, ErrDataTooLarge,
+// net.ErrClosed, a timeout): what the backend returns is the backend's
+// business and must not change where the message ends. The message holds a
+// bait command line; exactly one final reply, the bait is never executed, the
+// command after the end marker is.
+func verif_C02_sentinel() {
+	mode := verifChoice(3) // 0 SMTP, 1 LMTP plain session, 2 LMTP per-recipient session
+	msg := "ab\r\nMAIL FROM:<bait@v>\r\ncd\r\n.\r\n"
+	k := nondetInt(0, 8) // octets the backend reads before it fails, one per Read
+	var ret error
+	switch verifChoice(8) {
+	case 0:
+		ret = io.ErrUnexpectedEOF
+	case 1:
+		ret = fmt.Errorf("decode attachment: %w", io.ErrUnexpectedEOF)
+	case 2:
+		ret = io.EOF
+	case 3:
+		ret = ErrDataReset
+	case 4:
+		ret = ErrDataTooLarge
+	case 5:
+		ret = net.ErrClosed
+	case 6:
+		ret = verifTimeoutErr{}
+	case 7:
+		ret = fmt.Errorf("wrapped: %w", ErrDataTooLarge)
+	}
+	consume := func(r io.Reader) error {
+		buf := make([]byte, 1)
+		for i := 0; i < k; i++ {
+			if _, e := r.Read(buf); e != nil {
+				break
+			}
+		}
+		return ret
+	}
+	be := &vbackend{lmtpSession: mode == 2}
+	be.dataFn = func(_ *vsession, r io.Reader) error { return consume(r) }
+	be.lmtpFn = func(_ *vsession, r io.Reader, st StatusCollector) error { return consume(r) }
+	s, _ := verifServer(be)
+	s.LMTP = mode != 0
+	hello := "EHLO c\r\n"
+	if s.LMTP {
+		hello = "LHLO c\r\n"
+	}
+	in := hello + "MAIL FROM:<s@v>\r\nRCPT TO:<r@v>\r\nDATA\r\n" + msg + "MAIL FROM:<marker@v>\r\nNOOP\r\n"
+	vc, _, _ := verifServe(s, []byte(in), io.EOF)
+	reps, wf := verifParseReplies(vc.out)
+	verifObserve("c02s", mode, k, wf, len(reps), len(be.trace))
+	verifAssert(wf, "C02.sentinel-replies-wellformed")
+	verifAssert(be.find("Mail", "bait@v") < 0, "C02.sentinel-no-message-octet-executed")
+	verifAssert(be.find("Mail", "marker@v") >= 0, "C02.sentinel-resumes-after-marker")
+	// greeting, hello, MAIL, RCPT, 354, final, MAIL(marker), NOOP
+	verifAssert(len(reps) == 8, "C02.sentinel-one-reply-per-command")
+	if len(reps) == 8 {
+		verifAssert(reps[4].code == 354 && reps[5].code/100 != 2 && reps[6].code == 250 && reps[7].code == 250, "C02.sentinel-replies-in-order")
+	}
+	verifReach("C02.sentinel-end")
 }
